@@ -37,7 +37,11 @@ ObjV(e) ==
   \cup Clause(e.sphinx.tag = "raise", "C07_SphinxHookRaised")
   \cup Clause(e.sphinx.tag = "ok" /\ e.sphinx.expected # "-" /\ e.sphinx.got # e.sphinx.expected, "C07_SphinxHookNotTheEvaluatedSignature")
 
-Verdict(e) == IF e.op = "obj" THEN ObjV(e) ELSE {}
+(* "rec": the object is the root of a generated call graph of forwarding functions (spec/Recursion.tla): the analyses the real guard let  *)
+(* start, in order, next to the behaviour of the model.  A difference is a note (another guard may be total as well); not coming back is *)
+(* reported by the routes (Timeout)                                                                                                     *)
+RecV(e) == IF "rec" \in DOMAIN e THEN Clause(e.rec.real # e.rec.model, "DRIFT_RecursionTraceDiffersFromModel") ELSE {}
+Verdict(e) == IF e.op = "obj" THEN ObjV(e) \cup RecV(e) ELSE {}
 Init == l = 1
 Next == /\ l <= Len(TraceLog)
         /\ LET e == TraceLog[l] IN \A c \in Verdict(e) : PrintT("FAIL|" \o e.tid \o "|" \o c)
